@@ -28,6 +28,10 @@ func TestVerifC07Collection(t *testing.T) {
 		if err != nil {
 			t.Fatal(err)
 		}
+		if sfd := cfg.Str("sfd", "-"); sfd != "-" {
+			// delay between Take's unlocked lookup and the flight (and after it): see verifc07.SlowSF
+			cache.barrier = verifc07.NewSlowSF(sfd, cache.barrier.Do, cache.barrier.DoEx)
+		}
 		return verifc07.Target{
 			Invoke: func(c *verifc07.Call, fn func() (any, error)) (any, string, error) {
 				v, err := cache.Take(fmt.Sprint(c.Key()), fn)
